@@ -230,6 +230,36 @@ struct Agent {
     marker: UdpSocket,
 }
 
+/// The agent goes away for a moment: its socket is closed, the reporter sends a batch into
+/// the void (nothing can be claimed for that batch), the agent comes back on the same port.
+/// Whatever that did to the reporter, the next report must arrive complete.
+fn agent_outage(agent: &mut Agent, service: &str, batch: Vec<SpanRecord>) {
+    let addr = agent.sock.local_addr().unwrap();
+    let placeholder = UdpSocket::bind("127.0.0.1:0").expect("bind placeholder");
+    drop(std::mem::replace(&mut agent.sock, placeholder));
+    let svc = service.to_string();
+    let _ = guarded(move || {
+        let mut slot = HELD.lock().unwrap_or_else(|e| e.into_inner());
+        let mut rep = match slot.take() {
+            Some((s, rep)) if s == svc => rep,
+            _ => JaegerReporter::new(addr, svc.clone()).expect("reporter"),
+        };
+        rep.report(batch);
+        *slot = Some((svc, rep));
+    }, 20);
+    // time for the kernel to answer the datagrams with "port unreachable"
+    std::thread::sleep(std::time::Duration::from_millis(30));
+    for _ in 0..200 {
+        if let Ok(s) = UdpSocket::bind(addr) {
+            s.set_read_timeout(Some(std::time::Duration::from_secs(5))).unwrap();
+            agent.sock = s;
+            return;
+        }
+        std::thread::sleep(std::time::Duration::from_millis(5));
+    }
+    panic!("harness: could not re-bind the agent's port");
+}
+
 impl Agent {
     fn new() -> Agent {
         let sock = UdpSocket::bind("127.0.0.1:0").expect("bind agent");
@@ -297,10 +327,11 @@ fn run_case(agent: &Agent, service: &str, batch: Vec<SpanRecord>, out: &mut dyn 
 }
 
 pub fn generate(seed: u64, n: usize, out: &mut dyn Write) {
-    let agent = Agent::new();
+    let mut agent = Agent::new();
     let mut r = Rng::new(seed);
     let mut nrec = 0usize;
     let mut ndg = 0usize;
+    let mut outages = 0usize;
     for k in 0..n {
         let service = match (k / 3) % 5 {
             0 => String::new(),
@@ -310,8 +341,15 @@ pub fn generate(seed: u64, n: usize, out: &mut dyn Write) {
         let batch = gen_batch(&mut r, k + (seed as usize % 8));
         nrec += batch.len();
         ndg += 1;
+        if k % 3 == 1 && r.below(3) == 0 {
+            // between two reports of one reporter
+            let lost = vec![plain_record(&mut r, 5), plain_record(&mut r, 9)];
+            agent_outage(&mut agent, &service, lost);
+            outages += 1;
+        }
         run_case(&agent, &service, batch, out);
     }
+    let _ = writeln!(out, "#stat agent-outages {}", outages);
     let _ = writeln!(out, "#stat batches {}", ndg);
     let _ = writeln!(out, "#stat records {}", nrec);
 }
